@@ -463,6 +463,65 @@ fn dispatch_int(op: &str, args: &[&str]) -> Option<Res> {
                             "splitlo" => IBig::from(ubig(reg(1)?)?.split_bits(num(2)?).0),
                             "splithi" => IBig::from(ubig(reg(1)?)?.split_bits(num(2)?).1),
                             "nextpow2" => IBig::from(ubig(reg(1)?)?.next_power_of_two()),
+                            // ---- extended instruction set (HOpX): gcd, roots, parser, byte codecs
+                            "gcd" => {
+                                let (a, b) = (reg(1)?, reg(2)?);
+                                let both_nonneg = a.sign() == Sign::Positive && b.sign() == Sign::Positive;
+                                if both_nonneg && (num(1)? + num(2)?) % 2 == 0 {
+                                    // the UBig forms (by value / by reference)
+                                    IBig::from(dashu_base::Gcd::gcd(ubig(a)?, &ubig(b)?))
+                                } else if num(1)? % 2 == 0 {
+                                    IBig::from(dashu_base::Gcd::gcd(a, b))
+                                } else {
+                                    IBig::from(dashu_base::Gcd::gcd(a.clone(), b.clone()))
+                                }
+                            }
+                            "sqrt" => {
+                                let a = reg(1)?;
+                                if a.sign() == Sign::Positive && num(1)? % 2 == 0 {
+                                    IBig::from(dashu_base::SquareRoot::sqrt(&ubig(a)?))
+                                } else {
+                                    IBig::from(dashu_base::SquareRoot::sqrt(a))
+                                }
+                            }
+                            "root" => {
+                                let a = reg(1)?;
+                                if a.sign() == Sign::Positive && num(1)? % 2 == 0 {
+                                    IBig::from(ubig(a)?.nth_root(num(2)?))
+                                } else {
+                                    a.nth_root(num(2)?)
+                                }
+                            }
+                            "str" => {
+                                let bytes = p_bytes(&format!("s:{}", f.get(3).ok_or("bad-arg hist")?))?;
+                                let text = String::from_utf8(bytes).map_err(|_| "__bad__".to_string())?;
+                                let radix = num(2)? as u32;
+                                if f[1] == "1" {
+                                    IBig::from_str_radix(&text, radix).map_err(|_| "__bad__".to_string())?
+                                } else {
+                                    IBig::from(UBig::from_str_radix(&text, radix).map_err(|_| "__bad__".to_string())?)
+                                }
+                            }
+                            "leb" => IBig::from(UBig::from_le_bytes(&p_bytes(&format!("s:{}", f.get(1).ok_or("bad-arg hist")?))?)),
+                            "beb" => IBig::from(UBig::from_be_bytes(&p_bytes(&format!("s:{}", f.get(1).ok_or("bad-arg hist")?))?)),
+                            "sleb" => IBig::from_le_bytes(&p_bytes(&format!("s:{}", f.get(1).ok_or("bad-arg hist")?))?),
+                            "sbeb" => IBig::from_be_bytes(&p_bytes(&format!("s:{}", f.get(1).ok_or("bad-arg hist")?))?),
+                            "vle" => {
+                                let a = reg(1)?;
+                                if a.sign() == Sign::Positive && num(1)? % 2 == 0 {
+                                    IBig::from(UBig::from_le_bytes(&ubig(a)?.to_le_bytes()))
+                                } else {
+                                    IBig::from_le_bytes(&a.to_le_bytes())
+                                }
+                            }
+                            "vbe" => {
+                                let a = reg(1)?;
+                                if a.sign() == Sign::Positive && num(1)? % 2 == 0 {
+                                    IBig::from(UBig::from_be_bytes(&ubig(a)?.to_be_bytes()))
+                                } else {
+                                    IBig::from_be_bytes(&a.to_be_bytes())
+                                }
+                            }
                             o => return Err(format!("bad-arg hist op {}", o)),
                         })
                     };
@@ -824,9 +883,137 @@ pub mod fr {
         Ok(format!("{} {} zero-routes-agree", f_ibig(z.repr().significand()), f_dec(z.repr().exponent())))
     }
 
+
+    /// f.ctx: the value `x = s*B^e` (any number of digits) rounded to `p` digits through every route that
+    /// rounds exactly once — the owning `repr_round` (with_precision, sub(0, -x), convert_int) and the BORROWING
+    /// `repr_round_ref` (Context::add(&0,&x), add(&x,&0), sub(&x,&0), powi(x,1), powf(x,1)); all results must be
+    /// the same normalised representation, pairwise ==, cmp Equal, same numeric hash.  Then the producers that
+    /// round an operand by reference before computing (mul/sqr/cubic/div/sqrt/powi/exp/ln pre-shrink): each
+    /// result must be normalised, carry at most p+1 digits and be ==/cmp Equal to its own rebuilt copy.
+    fn ctx_routes<R: dashu_float::round::Round, const B: Word>(s: IBig, e: isize, p: usize, sy: IBig, ey: isize) -> Res {
+        use dashu_float::{Context, Repr};
+        type T<R, const B: Word> = FBig<R, B>;
+        let ctx = Context::<R>::new(p);
+        let x = Repr::<B>::new(s.clone(), e);
+        let y = Repr::<B>::new(sy.clone(), ey);
+        let zero = Repr::<B>::zero();
+        let negx = Repr::<B>::new(-s.clone(), e);
+        let mut vals: Vec<(&str, T<R, B>)> = vec![];
+        vals.push(("with_precision", T::<R, B>::from_parts(s.clone(), e).with_precision(p).value()));
+        vals.push(("add0x", ctx.add(&zero, &x).value()));
+        vals.push(("addx0", ctx.add(&x, &zero).value()));
+        vals.push(("subx0", ctx.sub(&x, &zero).value()));
+        vals.push(("sub0negx", ctx.sub(&zero, &negx).value()));
+        vals.push(("powi1", ctx.powi(&x, IBig::ONE).value()));
+        if p > 0 {
+            vals.push(("powf1", ctx.powf(&x, &Repr::<B>::one()).value()));
+        }
+        if (0..40).contains(&e) {
+            vals.push(("convert_int", ctx.convert_int::<B>(&s * IBig::from(B).pow(e as usize)).value()));
+        }
+        {
+            // a zero of the context's precision plus x through the FBig operators of both ownerships after
+            // the borrowed rounding (no further rounding: the operand already fits)
+            let r = ctx.add(&x, &zero).value();
+            let z = T::<R, B>::ZERO.with_precision(p).value();
+            vals.push(("addx0+0", &r + &z));
+            vals.push(("0+addx0", z.clone() + r.clone()));
+            vals.push(("addx0-0", r - z));
+        }
+        let r0 = vals[0].1.repr().clone();
+        let head = format!("{} {}", f_ibig(r0.significand()), f_dec(r0.exponent()));
+        for (n, v) in &vals {
+            let rp = v.repr();
+            if !norm_mark(v).is_empty() {
+                return Ok(format!("{} BAD {}:unnormalized:repr={}e{}", head, n, f_ibig(rp.significand()), rp.exponent()));
+            }
+            if rp.significand() != r0.significand() || rp.exponent() != r0.exponent() {
+                return Ok(format!("{} BAD {}:repr={}e{}", head, n, f_ibig(rp.significand()), rp.exponent()));
+            }
+            if v.precision() != p {
+                return Ok(format!("{} BAD {}:precision={}", head, n, v.precision()));
+            }
+            for (n1, w) in &vals {
+                if v != w || v.partial_cmp(w) != Some(Ordering::Equal) || v.cmp(w) != Ordering::Equal || numfeed(v) != numfeed(w) {
+                    return Ok(format!("{} BAD {}-vs-{}", head, n, n1));
+                }
+            }
+        }
+        // producers that shrink an over-long operand by reference first
+        let mut prods: Vec<(&str, T<R, B>)> = vec![];
+        prods.push(("mul", ctx.mul(&x, &y).value()));
+        prods.push(("mulrev", ctx.mul(&y, &x).value()));
+        prods.push(("sqr", ctx.sqr(&x).value()));
+        prods.push(("cubic", ctx.cubic(&x).value()));
+        prods.push(("add", ctx.add(&x, &y).value()));
+        prods.push(("sub", ctx.sub(&x, &y).value()));
+        prods.push(("powi2", ctx.powi(&x, IBig::from(2)).value()));
+        prods.push(("powi5", ctx.powi(&x, IBig::from(5)).value()));
+        if p > 0 {
+            if !y.is_zero() {
+                prods.push(("div", ctx.div(&x, &y).value()));
+            }
+            if !x.is_zero() {
+                prods.push(("divrev", ctx.div(&y, &x).value()));
+                prods.push(("inv", ctx.inv(&x).value()));
+                prods.push(("powi-3", ctx.powi(&x, IBig::from(-3)).value()));
+            }
+            if x.sign() == Sign::Positive {
+                prods.push(("sqrt", ctx.sqrt(&x).value()));
+            }
+            // exp / ln only where the result stays small (|x| < B^3)
+            let small = (x.digits() as isize + x.exponent()) <= 3 && p <= 40 && x.digits() <= 60;
+            if small {
+                prods.push(("exp", ctx.exp(&x).value()));
+                if x.sign() == Sign::Positive && !x.is_zero() && (x.digits() as isize + x.exponent()) >= -3 {
+                    prods.push(("ln", ctx.ln(&x).value()));
+                }
+            }
+        }
+        for (n, v) in &prods {
+            let rp = v.repr();
+            if rp.is_infinite() {
+                continue;
+            }
+            if !norm_mark(v).is_empty() {
+                return Ok(format!("{} BAD {}:unnormalized:repr={}e{}", head, n, f_ibig(rp.significand()), rp.exponent()));
+            }
+            if p > 0 && rp.digits() > p + 1 {
+                return Ok(format!("{} BAD {}:digits={}", head, n, rp.digits()));
+            }
+            let w = T::<R, B>::from_parts(rp.significand().clone(), rp.exponent());
+            if v != &w || &w != v || v.partial_cmp(&w) != Some(Ordering::Equal) || w.cmp(v) != Ordering::Equal || numfeed(v) != numfeed(&w) {
+                return Ok(format!("{} BAD {}:ne-rebuilt", head, n));
+            }
+        }
+        Ok(format!("{} routes-agree", head))
+    }
+
     pub fn dispatch(op: &str, args: &[&str]) -> Option<Res> {
         Some((|| -> Res {
             match op {
+                // f.ctx <base><mode> s d:e d:p sy d:ey : see `ctx_routes` -> `<signif> <exp> routes-agree` | `… BAD <route>:<what>`
+                "f.ctx" => {
+                    let s = p_ibig(arg(args, 1)?)?;
+                    let e = p_isize(arg(args, 2)?)?;
+                    let p = p_usize(arg(args, 3)?)?;
+                    let sy = p_ibig(arg(args, 4)?)?;
+                    let ey = p_isize(arg(args, 5)?)?;
+                    match arg(args, 0)? {
+                        "2Z" => ctx_routes::<mode::Zero, 2>(s, e, p, sy, ey),
+                        "2E" => ctx_routes::<mode::HalfEven, 2>(s, e, p, sy, ey),
+                        "2A" => ctx_routes::<mode::Away, 2>(s, e, p, sy, ey),
+                        "10H" => ctx_routes::<mode::HalfAway, 10>(s, e, p, sy, ey),
+                        "10E" => ctx_routes::<mode::HalfEven, 10>(s, e, p, sy, ey),
+                        "10D" => ctx_routes::<mode::Down, 10>(s, e, p, sy, ey),
+                        "10U" => ctx_routes::<mode::Up, 10>(s, e, p, sy, ey),
+                        "10Z" => ctx_routes::<mode::Zero, 10>(s, e, p, sy, ey),
+                        "16Z" => ctx_routes::<mode::Zero, 16>(s, e, p, sy, ey),
+                        "16H" => ctx_routes::<mode::HalfAway, 16>(s, e, p, sy, ey),
+                        "3U" => ctx_routes::<mode::Up, 3>(s, e, p, sy, ey),
+                        b => Err(format!("bad-arg tag {}", b)),
+                    }
+                }
                 // f.zero <base> d:p x d:k : exact zeros of every origin (literal, default, from_parts(0, k), a - a,
                 // 0 * a, -0, parsed; at precision p, 0 = unlimited; a = x*B^k) pushed through every producer form
                 // (<< >> <<= >>= by +-k, * *= by value / reference / primitive / Sign, + - += -= with zero, neg,
